@@ -166,6 +166,27 @@ def numberToString (x : DblAbs) (rt carry : Nat → Bool) : Res NumPath :=
     | .memErr => .memErr
     | .outOfFuel => .outOfFuel
 
+/-! ## formatSmallNumber (DOMStringHelper.cpp, since c8ec637): when no "%.Nf" reads back, "%.17e" is expanded in the same buffer -/
+
+/-- bytes `sprintf(theScientific, "%.17e", x)` stores: `[-]d.` + 17 digits + `e-` + exponent digits + NUL -/
+def scientificBytes (neg : Bool) (expDigits : Nat) : Nat :=
+  (if neg then 1 else 0) + 2 + (smallNumberDigits - 1) + 2 + expDigits + 1
+
+/-- bytes the expansion stores into `theBuffer` for decimal exponent `−e`: `[-]0.` + (e − 1) zeros + the digits + NUL -/
+def smallNumberBytes (neg : Bool) (e : Nat) : Nat :=
+  (if neg then 1 else 0) + 2 + (e - 1) + smallNumberDigits + 1
+
+/-- `formatSmallNumber`: both stores checked against their (regenerated) arrays -/
+def formatSmallNumber (neg : Bool) (e expDigits : Nat) : Res Nat :=
+  if scientificBytes neg expDigits ≤ scientificBufferSize then
+    if smallNumberBytes neg e ≤ printfBufferSize then .ok (smallNumberBytes neg e) else .memErr
+  else .memErr
+
+/-- decimal exponent of a double `m / 2^s < 1` (m ≥ 1): the least `k` with `m · 10^k ≥ 2^s`, i.e. x = d.ddd·10^(−k) -/
+def decExpOf (m s : Nat) : Nat → Nat → Nat
+  | 0, k => k
+  | fuel + 1, k => if m * 10 ^ k ≥ 2 ^ s then k else decExpOf m s fuel (k + 1)
+
 /-! ## stack arrays selected by a length guard -/
 
 /-- the stack array is used for this length -/
